@@ -14,6 +14,8 @@ mod proofs {
         pub id: u8,
         pub a: Option<u32>,
         pub b: Option<u32>,
+        pub c: Option<u32>,
+        pub d: Option<u32>,
         pub flag: bool,
         pub len: usize,
     }
@@ -23,11 +25,15 @@ mod proofs {
     }
     impl Rec {
         pub fn new() -> Self {
-            Rec { n: 0, last: Call { id: 0, a: None, b: None, flag: false, len: 0 } }
+            Rec { n: 0, last: Call { id: 0, a: None, b: None, c: None, d: None, flag: false, len: 0 } }
         }
         fn rec(&mut self, id: u8, a: Option<u32>, b: Option<u32>, flag: bool, len: usize) {
             self.n += 1;
-            self.last = Call { id, a, b, flag, len };
+            self.last = Call { id, a, b, c: None, d: None, flag, len };
+        }
+        fn rec_list(&mut self, id: u8, m: &[u32], flag: bool) {
+            self.n += 1;
+            self.last = Call { id, a: m.get(0).copied(), b: m.get(1).copied(), c: m.get(2).copied(), d: m.get(3).copied(), flag, len: m.len() };
         }
     }
     pub const ALIGN: u8 = 1; pub const DEFCS: u8 = 2; pub const RESET: u8 = 3; pub const INDEX: u8 = 4; pub const LINEFEED: u8 = 5;
@@ -74,9 +80,9 @@ mod proofs {
         fn report_device_attributes(&mut self, m: Option<u32>, p: Option<bool>) { self.rec(DA, m, None, p.unwrap_or(false), 0) }
         fn cursor_to_line(&mut self, l: Option<u32>) { self.rec(VPA, l, None, false, 0) }
         fn clear_tab_stop(&mut self, h: Option<u32>) { self.rec(TBC, h, None, false, 0) }
-        fn set_mode(&mut self, m: &[u32], p: bool) { self.rec(SM, m.get(0).copied(), m.get(1).copied(), p, m.len()) }
-        fn reset_mode(&mut self, m: &[u32], p: bool) { self.rec(RM, m.get(0).copied(), m.get(1).copied(), p, m.len()) }
-        fn select_graphic_rendition(&mut self, m: &[u32]) { self.rec(SGR, m.get(0).copied(), m.get(1).copied(), false, m.len()) }
+        fn set_mode(&mut self, m: &[u32], p: bool) { self.rec_list(SM, m, p) }
+        fn reset_mode(&mut self, m: &[u32], p: bool) { self.rec_list(RM, m, p) }
+        fn select_graphic_rendition(&mut self, m: &[u32]) { self.rec_list(SGR, m, false) }
         fn set_title(&mut self, _t: &str) { self.rec(TITLE, None, None, false, 0) }
         fn set_icon_name(&mut self, _t: &str) { self.rec(ICON, None, None, false, 0) }
         fn set_margins(&mut self, t: Option<u32>, b: Option<u32>) { self.rec(STBM, t, b, false, 0) }
@@ -89,7 +95,7 @@ mod proofs {
     }
 
     /// CSI final byte -> listener method and parameter positions, for EVERY final byte in 0x20..=0x7e,
-    /// every parameter list of length 0..=2 with arbitrary u32 values, and both values of the private flag.
+    /// every parameter list of length 0..=4 with arbitrary u32 values (list length is the one bound: longer lists reach the same slice-indexing code), and both values of the private flag.
     /// The expected table is written from ECMA-48 / the VT100 manual, not from src/control.rs.
     #[kani::proof]
     #[kani::unwind(4)]
@@ -99,15 +105,21 @@ mod proofs {
         let buf = [fin];
         let p0: u32 = kani::any();
         let p1: u32 = kani::any();
+        let p2: u32 = kani::any();
+        let p3: u32 = kani::any();
         let len: usize = kani::any();
-        kani::assume(len <= 2);
+        kani::assume(len <= 4);
         let private: bool = kani::any();
-        let params = [p0, p1];
+        let params = [p0, p1, p2, p3];
         let mut r = Rec::new();
         r.csi_dispatch(one_char(&buf), &params[..len], private);
         let a = if len >= 1 { Some(p0) } else { None };
         let b = if len >= 2 { Some(p1) } else { None };
-        let one = |id: u8| Call { id, a, b: None, flag: false, len: 0 };
+        let c = if len >= 3 { Some(p2) } else { None };
+        let d = if len >= 4 { Some(p3) } else { None };
+        let one = |id: u8| Call { id, a, b: None, c: None, d: None, flag: false, len: 0 };
+        let two = |id: u8| Call { id, a, b, c: None, d: None, flag: false, len: 0 }; // parameters beyond the second are ignored
+        let list = |id: u8, flag: bool| Call { id, a, b, c, d, flag, len };
         let expected: Option<Call> = match fin {
             b'@' => Some(one(ICH)),
             b'A' => Some(one(CUU)),
@@ -117,7 +129,7 @@ mod proofs {
             b'E' => Some(one(CNL)),
             b'F' => Some(one(CPL)),
             b'G' => Some(one(CHA)),
-            b'H' => Some(Call { id: CUP, a, b, flag: false, len: 0 }), // first = row, second = column
+            b'H' => Some(two(CUP)), // first = row, second = column
             b'J' => Some(one(ED)),
             b'K' => Some(one(EL)),
             b'L' => Some(one(IL)),
@@ -128,12 +140,12 @@ mod proofs {
             b'c' => Some(one(DA)),
             b'd' => Some(one(VPA)),
             b'e' => Some(one(CUD)), // VPR
-            b'f' => Some(Call { id: CUP, a, b, flag: false, len: 0 }), // HVP
+            b'f' => Some(two(CUP)), // HVP
             b'g' => Some(one(TBC)),
-            b'h' => Some(Call { id: SM, a, b, flag: private, len }),
-            b'l' => Some(Call { id: RM, a, b, flag: private, len }),
-            b'm' => Some(Call { id: SGR, a, b, flag: false, len }),
-            b'r' => Some(Call { id: STBM, a, b, flag: false, len: 0 }),
+            b'h' => Some(list(SM, private)),
+            b'l' => Some(list(RM, private)),
+            b'm' => Some(list(SGR, false)),
+            b'r' => Some(two(STBM)),
             _ => None,
         };
         match expected {
